@@ -1,137 +1,42 @@
 """C12 -- the checker is total: no crash, no internal error, well-formed output.
 
-Spec: spec/Totality.tla -- (i) a TLC generator of deliberately odd / ill-typed modules (sequences of
-fragment kinds x operand kinds), (ii) the life-cycle automaton of one check (Start -> Diag* -> End, every
-Diag WellFormed, no Raise action).  Every generated module is rendered (FRAGMENTS below), checked by the
-real visitor under two enabled-code configurations, and the recorded Begin/Diag/End/Raised event stream
-is validated by TLC (TotalityTrace.tla).  The public value API (can_assign / unite_values /
-substitute_typevars) is exercised on TLC-generated pairs of Values (Assign.tla's generator).
-The strength is exploration-level (stated in DESIGN.md): TLA+ contributes the generator and the
+Spec: spec/Totality.tla + spec/TotalityValues.tla
+  (i)   G: a TLC generator of deliberately odd / ill-typed modules (sequences of fragment kinds x operand kinds x scope
+        nestings; rendered by harness/c12_fragments.py);
+  (ii)  the life-cycle automaton of one check (Start -> Diag* -> End, every Diag WellFormed, no Raise action) stated on the
+        POSITION MODEL: a module is a sequence of physical lines (length in code points, UTF-8 length, the pieces
+        str.splitlines() cuts them into), a diagnostic is attached to an AST node; ImplShow / ImplContext transcribe
+        show_error (node_visitor.py:654-735), RefWellFormedPos / RefContextOK are what the property demands.  The model itself
+        is checked exhaustively on small abstract files (PosProperty; PosStrict and one cfg per deviation class must fail);
+  (iii) Y: a TLC generator of layouts (where in a real module the diagnosed node sits: line 1, unterminated last line,
+        continuation line, decorator, f-string, class body / nested def, lambda default, string annotation; what stands in
+        front of it: non-ASCII text, TAB, characters at which only str.splitlines() breaks; lines around it; terminators);
+  (iv)  V / R: pairs of Value terms over the wide term space of Values.tla (OddTerms) and (object, type) pairs for
+        pyanalyze.runtime: every public operation must return.
+Every generated module is checked by the real visitor under two enabled-code configurations; the recorded
+Begin/Diag/End/Raised stream (every diagnostic with code, line, column, message length, rendered context) and the
+ValueOp / RtOp observations are adjudicated by TLC (TotalityTrace.tla).
+The strength is exploration-level (stated in DESIGN.md): TLA+ contributes the generators, the position model and the
 acceptance automaton; totality is observed, not derived.
 """
 from __future__ import annotations
 
 import ast
 import random
-from typing import Any
+import re
+import warnings
+from concurrent.futures import ThreadPoolExecutor
+from typing import Any, Optional
 
 from .. import assign_common as ac
-from .. import core, pyz
+from .. import c12_fragments as F
+from .. import codec, core, pyz
 
 LEVEL = "exploration"
 
-PRELUDE = '''import os
-from dataclasses import dataclass
-from typing import Any, Optional, TypeVar, Union, overload
-
-TT = TypeVar("TT", bound=int)
-
-def helper_fn(x: int, y: str = "") -> int:
-    return x
-
-class HelperCls:
-    a: int = 1
-    def method(self, q: int) -> str:
-        return ""
-
-@dataclass
-class HelperDC:
-    f: int
-    g: str = ""
-
-@overload
-def ov(x: int) -> int: ...
-@overload
-def ov(x: str) -> str: ...
-def ov(x: Union[int, str]) -> Union[int, str]:
-    return x
-
-GG = 0
-'''
-
-OPERAND = {
-    "int": "(1)", "str": '"s"', "none": "None", "list": '[1, "a"]', "dict": '{"k": 1}', "tuple": '(1, "a")',
-    "func": "helper_fn", "cls": "HelperCls", "module": "os", "undefined": "zz_undefined_name", "float": "(1.5)",
-    "bytes": 'b"x"', "set": "{1, 2}",
-}
-ANNOT = {
-    "int": "int", "str": "str", "none": "None", "list": "list[int]", "dict": "dict[str, int]", "tuple": "tuple[int, *tuple[str, ...]]",
-    "func": "helper_fn", "cls": "HelperCls", "module": "os", "undefined": "ZzUndefinedType", "float": "float | None",
-    "bytes": "Optional[bytes]", "set": "set[list[int]]",
-}
-
-
-def fragment_lines(f: dict) -> list[str]:
-    A, B = OPERAND[f["a"]], OPERAND[f["b"]]
-    AN = ANNOT[f["a"]]
-    k = f["kind"]
-    table: dict[str, list[str]] = {
-        "call_arity": [f"helper_fn({A}, {A}, {A})", "helper_fn()", f"{A}()", f"{A}({A})"],
-        "call_kw": [f"helper_fn(x={A}, nope={A})", f"HelperCls().method(q={A}, q2={A})"],
-        "binop": [f"{A} + {B}", f"{A} @ {B}", f"{A} < {B}", f"{A} ** {B}"],
-        "unary": [f"-{A}", f"~{A}", f"not {A}", f"+{A}"],
-        "subscript": [f"{A}[{B}]", f"v = {A}", f"v[{B}] = 1", f"del v[{B}]"],
-        "attribute": [f"{A}.nope", f"v = {A}", "v.nope = 1", f"{A}.__class__.__name__.nope"],
-        "compare": [f"{A} in {B}", f"{A} is {B}", f"{A} == {B} < {A}", f"{A} not in {B}"],
-        "annotation": [f"def inner(p: {AN}, *a: {AN}, **k: {AN}) -> {AN}:", "    return p", f"inner({A})"],
-        "string_annotation": [f"def inner(p: \"{AN}\") -> \"{AN} | None\":", "    return p", f"x: \"{AN}\" = {A}"],
-        "odd_string_annotation": [f"def inner(p: \"lambda: {AN}\", q: \"{AN} if 1 else {AN}\", r: \"[{AN} for _ in ()]\") -> \"not {AN}\":", "    return p",
-                                  f"y: \"{AN}.attr[0](1)\" = {A}", f"z: \"-{AN}\" = {A}", f"w: \"{{1: {AN}}}\" = {A}"],
-        "mixed_returns": ["def inner(c: bool):", "    if c:", f"        return {A}", "    elif c is None:", "        return int", "    return HelperCls", "inner(True)"],
-        "decorator": [f"@{A}", "def inner(q):", "    return q", "inner(1)"],
-        "class_base": [f"class Inner({A}, metaclass=type):", "    pass", "Inner()"],
-        "class_body": ["class Inner:", f"    x: {AN} = {A}", "    def m(self):", "        return self.y + self.x", "Inner().m().nope"],
-        "listcomp": [f"[x.nope for x in {A} if x]", f"[[y for y in x] for x in {A}]"],
-        "dictcomp": [f"{{k: v for k, v in {A}}}", f"{{x: x for x in {A}}}"],
-        "genexp": [f"sum(x for x in {A})", f"list(x for x in {A} for y in x)"],
-        "lambda_call": [f"(lambda x, *y, **z: x + {A})({A}, {A}, q={A})", "(lambda: undefined_in_lambda)()"],
-        "starred_call": [f"helper_fn(*{A}, **{A})", f"print(*{A}, sep={A})"],
-        "starred_assign": [f"first, *rest = {A}", "first.nope", "rest.nope", f"*only, = {A}"],
-        "fstring": [f"f\"{{({A})!r:>10}} {{({A}).nope}} {{({A}):{{({A})}}}}\"", f"f'{{({A})=}}'"],
-        "percent_format": [f"\"%d %s\" % {A}", f"\"%(a)s\" % {A}", f"\"{{}} {{nope}}\".format({A})"],
-        "walrus": [f"if (w := {A}):", "    w.nope", f"print(w2 := {A}, w2)"],
-        "match_stmt": [f"match {A}:", "    case [x, *y]:", "        x.nope", "    case {\"k\": v, **rest}:", "        v.nope",
-                       "    case HelperCls(a=1) | HelperDC(1, g=\"\"):", "        pass", "    case str() | None | 1.5:", "        pass",
-                       "    case (1 | 2) as z if z:", "        z.nope", "    case _:", "        pass"],
-        "async_fn": ["async def inner():", f"    await {A}", f"    async with {A} as q:", "        q.nope", f"    async for z in {A}:", "        z.nope",
-                     f"    return [x async for x in {A}]"],
-        "with_stmt": [f"with {A} as q, {A}:", "    q.nope"],
-        "for_loop": [f"for a, b in {A}:", "    a + b", "else:", "    b"],
-        "unpack": [f"a, b = {A}", f"(c, d), e = {A}, {A}", f"[f, g] = {A}"],
-        "augassign": [f"v = {A}", f"v += {B}", "v[0] -= 1", "v.attr *= 2"],
-        "delete": [f"v = {A}", "del v", "v", f"del {A}.nope"],
-        "global_stmt": ["global GG", "GG = \"now a str\"", "GG.nope"],
-        "try_stmt": ["try:", f"    {A}.nope", f"except {A}:", "    pass", f"except (ValueError, {A}) as e:", "    e.nope", "else:", "    pass", "finally:", "    pass"],
-        "return_value": ["def inner() -> int:", f"    return {A}", "def inner2() -> None:", f"    return {A}", "inner().nope"],
-        "yield_stmt": ["def inner():", f"    x = yield {A}", f"    yield from {A}", "    return x", "for q in inner():", "    q.nope"],
-        "assert_stmt": [f"assert {A}, {A}", f"assert isinstance({A}, int)", f"assert {A} is not None"],
-        "ifexp": [f"({A} if {A} else {A}).nope", f"(1 if {A} else \"s\") + 1"],
-        "boolop": [f"({A} and {B}) or (not {A})", f"({A} or {B}).nope"],
-        "slice": [f"{A}[1:2]", f"{A}[::{A}]", f"{A}[1:2] = {A}"],
-        "dict_display": [f"{{{A}: {B}, **{A}}}", f"{{{A}: 1, {A}: 2}}"],
-        "set_display": [f"{{{A}, *{A}}}", f"{{{A}, {A}}}"],
-        "nested_def": [f"def outer(p={A}, *a: {AN}, k: {AN} = {A}, **kw):", "    def innermost():", "        nonlocal p", "        p = 1", "        return p, a, k, kw",
-                       "    return innermost", f"outer({A}, k={A})()"],
-        "typevar_fn": ["def inner(x: TT) -> list[TT]:", "    return [x]", f"inner({A})", f"inner({A})[0].nope"],
-        "overload_fn": [f"ov({A})", f"ov({A}, {A})", f"ov(x={A}).nope"],
-        "dataclass_cls": ["@dataclass", "class DC:", f"    f: {AN} = {A}", f"HelperDC({A}, nope={A})", f"DC({A}).f.nope"],
-    }
-    if k not in table:
-        raise core.MachineryError(f"no rendering for fragment kind {k}")
-    return table[k]
-
-
-def render(prog: list[dict]) -> str:
-    lines = [PRELUDE]
-    for i, f in enumerate(prog):
-        lines.append(f"def frag_{i}():")
-        for ln in fragment_lines(f):
-            lines.append("    " + ln)
-        lines.append("")
-    return "\n".join(lines) + "\n"
-
-
-CONFIGS: list[dict[str, bool] | None] = [None, "ALL"]  # type: ignore[list-item]
+render = F.render
+CONFIGS = ["default", "all-enabled"]
+MARK = "zz_mark"
 
 
 def _all_enabled() -> dict[str, bool]:
@@ -140,37 +45,324 @@ def _all_enabled() -> dict[str, bool]:
     return {e.name: True for e in ErrorCode}
 
 
-def observe_prog(arg: tuple[int, dict]) -> list[dict]:
-    tid, p = arg
-    src = render(p["prog"])
+# --------------------------------------------------------------------------- the position model's view of a source text
+_NL = re.compile(r"\r\n|\n|\r")
+
+
+def ref_lines(src: str) -> list[str]:
+    """Physical lines as CPython's tokenizer counts them (language reference 2.1.2: terminated by LF, CRLF or CR)."""
+    parts = _NL.split(src)
+    if parts and parts[-1] == "":
+        parts.pop()
+    return parts
+
+
+class TextIds:
+    """Injective text -> id table of one module: the trace spec only compares line texts for equality, so the texts travel
+    as ids (equal ids <=> equal texts)."""
+
+    def __init__(self) -> None:
+        self.ids: dict[str, int] = {}
+
+    def __call__(self, text: str) -> int:
+        return self.ids.setdefault(text, len(self.ids) + 1)
+
+
+def line_records(src: str, ids: TextIds) -> list[dict]:
+    out = []
+    for t in ref_lines(src):
+        pieces = t.splitlines() if t else [t]
+        out.append({"t": ids(t), "c": len(t), "b": len(t.encode("utf-8")), "p": [] if pieces == [t] else [ids(x) for x in pieces]})
+    return out
+
+
+_CTX = re.compile(r"^ *(\d+): (.*)$", re.S)
+_CARET = re.compile(r"^( +)\^$")
+
+
+def parse_context(ctx: Optional[str], ids: TextIds) -> tuple[list[dict], int]:
+    """failure["context"] -> ([{n, t}..], caret column or -1).  Rendered as "%4d: %s" % (i, line) per line (each line
+    ends with "\\n") plus a caret line `" " * (6 + col) + "^"`."""
+    entries: list[dict] = []
+    caret = -1
+    if not ctx:
+        return entries, caret
+    for raw in ctx.split("\n")[:-1] if ctx.endswith("\n") else ctx.split("\n"):
+        m = _CTX.match(raw)
+        if m:
+            entries.append({"n": int(m.group(1)), "t": ids(m.group(2))})
+            continue
+        mc = _CARET.match(raw)
+        if mc and caret == -1:
+            caret = len(mc.group(1))
+            continue
+        raise core.MachineryError(f"cannot parse rendered context line {raw!r} of {ctx!r}")
+    return entries, caret
+
+
+def node_positions(src: str) -> tuple[set, set]:
+    """((lineno, col_offset) of every node of the file, the same for the nodes of every string constant parsed on its own)."""
+    tree = ast.parse(src)
+    here, fwd = set(), set()
+    for n in ast.walk(tree):
+        if hasattr(n, "lineno") and hasattr(n, "col_offset"):
+            here.add((n.lineno, n.col_offset))
+        if isinstance(n, ast.Constant) and isinstance(n.value, str) and n.value.strip():
+            try:
+                sub = ast.parse(n.value, mode="eval")
+            except (SyntaxError, ValueError):
+                continue
+            for m in ast.walk(sub):
+                if hasattr(m, "lineno") and hasattr(m, "col_offset"):
+                    fwd.add((m.lineno, m.col_offset))
+    return here, fwd
+
+
+def diag_event(tid: int, f: dict, pos: Optional[tuple[set, set]], frag_of_line, marker, ids: TextIds) -> dict:
+    code = getattr(f.get("code"), "name", None) or "none"
+    desc = f.get("description") or ""
+    haspos = f.get("lineno") is not None and f.get("col_offset") is not None
+    lineno = f.get("lineno") if f.get("lineno") is not None else 0
+    col = f.get("col_offset") if f.get("col_offset") is not None else 0
+    ctx, caret = parse_context(f.get("context"), ids)
+    exc = ""
+    for ln in desc.splitlines():
+        if ln.startswith("Internal error: "):
+            exc = ln[:200]
+    first = desc.splitlines()[0] if desc.splitlines() else ""
+    origin = "none"
+    if pos is not None:
+        a, b = (lineno, col) in pos[0], (lineno, col) in pos[1]
+        origin = "both" if a and b else "file" if a else "fwd" if b else "none"
+    return {"tid": tid, "event": "Diag", "code": code, "haspos": haspos, "lineno": lineno, "col": col, "msglen": len(desc),
+            "exc": exc, "head": first.split(":")[0][:60], "ctx": ctx, "caret": caret, "origin": origin,
+            "frag": frag_of_line(lineno), "marker": bool(marker(code, desc)), "msg": desc[:200]}
+
+
+def observe_source(tid0: int, src: str, begin_extra: dict, frag_of_line, marker) -> list[dict]:
+    """Check `src` under both configurations; events of tid0 (default) and tid0 + 1 (all codes enabled)."""
     try:
-        ast.parse(src)
+        with warnings.catch_warnings():
+            warnings.simplefilter("ignore")
+            ast.parse(src)
     except SyntaxError as exc:
         raise core.MachineryError(f"generated module is not valid syntax: {exc}\n{src}")
-    out = []
-    src_lines = src.splitlines()
-    for ci, cfg in enumerate(CONFIGS):
-        settings = _all_enabled() if cfg == "ALL" else None
-        ev_tid = tid * 2 + ci
-        out.append({"tid": ev_tid, "event": "Begin", "nlines": len(src_lines), "linelens": [len(x) for x in src_lines],
-                    "prog": p["prog"], "config": "all-enabled" if cfg == "ALL" else "default"})
-        try:
+    ids = TextIds()
+    lines = line_records(src, ids)
+    pos = node_positions(src)
+    out: list[dict] = []
+    module = None
+    import_error = None
+    sent: set[str] = set()
+    try:
+        with warnings.catch_warnings():
+            warnings.simplefilter("ignore")
             module = pyz.make_module(src)
-        except Exception as exc:  # the module does not import: outside the property's domain
-            out.append({"tid": ev_tid, "event": "End", "note": f"module does not import: {type(exc).__name__}"})
+    except Exception as exc:  # the module does not import: outside the property's domain
+        import_error = type(exc).__name__
+    for ci, cfg in enumerate(CONFIGS):
+        tid = tid0 + ci
+        out.append({"tid": tid, "event": "Begin", "lines": lines if ci == 0 else [], "same": ci > 0, "config": cfg, **begin_extra})
+        if module is None:
+            out.append({"tid": tid, "event": "End", "skipped": True, "note": f"module does not import: {import_error}"})
             continue
         try:
-            fails = pyz.check_source(src, settings=settings, module=module)
+            with warnings.catch_warnings():
+                warnings.simplefilter("ignore")
+                fails = pyz.check_source(src, settings=_all_enabled() if cfg == "all-enabled" else None, module=module)
         except BaseException as exc:  # noqa: BLE001  (SystemExit etc. are raises too)
-            out.append({"tid": ev_tid, "event": "Raised", "exc": f"{type(exc).__name__}: {exc}"[:500]})
+            out.append({"tid": tid, "event": "Raised", "exc": f"{type(exc).__name__}: {exc}"[:500]})
             continue
+        same = 0
         for f in fails:
-            code = getattr(f.get("code"), "name", None) or "none"
-            out.append({"tid": ev_tid, "event": "Diag", "code": code, "lineno": f.get("lineno") if f.get("lineno") is not None else 0,
-                        "col": f.get("col_offset") if f.get("col_offset") is not None else 0,
-                        "msglen": len(f.get("description") or ""), "msg": (f.get("description") or "")[:300]})
-        out.append({"tid": ev_tid, "event": "End"})
+            ev = diag_event(tid, f, pos, frag_of_line, marker, ids)
+            # the verdict on a diagnostic is a function of its recorded fields and of the module: a diagnostic of the second
+            # configuration that is field-for-field one already recorded for this module is not sent to TLC a second time
+            key = core.canon({k: v for k, v in ev.items() if k != "tid"})
+            if key in sent:
+                same += 1
+                continue
+            sent.add(key)
+            out.append(ev)
+        out.append({"tid": tid, "event": "End", "skipped": False, "same_as_other_config": same})
     return out
+
+
+# --------------------------------------------------------------------------- G: modules made of fragments
+def _no_marker(code: str, desc: str) -> bool:
+    return False
+
+
+def observe_prog(arg: tuple[int, dict]) -> list[dict]:
+    tid, p = arg
+    prog = p["prog"]
+    src = render(prog)
+    # which fragment a line belongs to (1-based index into prog; 0 = prelude)
+    starts: list[int] = []
+    ln = len(F.PRELUDE.split("\n"))  # "\n".join([PRELUDE, ...]): the prelude ends with "\n", so block 0 starts here + 1
+    for f in prog:
+        starts.append(ln + 1)
+        ln += len(f.get("w") or ["def"]) + len(F.fragment_lines(f)) + 1
+
+    def frag_of_line(lineno: int) -> int:
+        k = 0
+        for i, s in enumerate(starts):
+            if lineno >= s:
+                k = i + 1
+        return k
+
+    return observe_source(tid * 2, src, {"slice": "frag", "prog": prog}, frag_of_line, _no_marker)
+
+
+# --------------------------------------------------------------------------- Y: layouts
+PADS = {"none": "", "u2": "\u00e9", "u2x20": "\u00e9" * 20, "u3": "\u20ac", "u4": "\U0001F600", "tab": "\t", "ff": "\x0c",
+        "vt": "\x0b", "fs": "\x1c", "nel": "\x85", "ls": "\u2028", "ps": "\u2029"}
+FILLERS = {"plain": "v{i} = {i}", "wide": "v{i} = \"\u00e9\u00e9\u00e9\u20ac\U0001F600\"", "ff": "v{i} = \"a\x0cb\"",
+           "ls": "v{i} = \"a\u2028b\"", "nel": "v{i} = {i}  # c\x85d"}
+NEWLINES = {"lf": "\n", "crlf": "\r\n", "cr": "\r"}
+SITES: dict[str, tuple[list[str], str]] = {
+    # site -> (lines with {P} = the padding inside a string literal, expected code of the diagnostic about the marker)
+    "oneline": (["def f(): return (\"{P}\", zz_mark)"], "undefined_name"),
+    "body": (["def f():", "    return (\"{P}\", zz_mark)"], "undefined_name"),
+    "continuation": (["def f():", "    return print(", "        \"{P}\", zz_mark,", "    )"], "undefined_name"),
+    "mlcall": (["def f():", "    return (\"{P}\", int(", "        1, 2, 3,", "        4))"], "incompatible_call"),
+    "decorator": (["def outer():", "    @print(\"{P}\", zz_mark)", "    def inner(): pass", "    return inner"], "undefined_name"),
+    "fstring": (["def f(): return f\"{P}{{zz_mark}}\""], "undefined_name"),
+    "fstring_ml": (["def f():", "    return f\"\"\"a", "{P}{{zz_mark}}\"\"\""], "undefined_name"),
+    "fstring_spec": (["def f(): return f\"{P}{{1:{{zz_mark}}}}\""], "undefined_name"),
+    "classbody": (["class C:", "    def m(self):", "        return (\"{P}\", zz_mark)"], "undefined_name"),
+    "nesteddef": (["def f():", "    def g():", "        return (\"{P}\", zz_mark)", "    return g"], "undefined_name"),
+    "lambda_default": (["def f():", "    return lambda a=(\"{P}\", zz_mark): a"], "undefined_name"),
+    "comprehension": (["def f(y):", "    return [(\"{P}\", zz_mark) for _ in y]"], "undefined_name"),
+    "strannot": (["def f(x: \"int.zz_mark\"): return \"{P}\""], "invalid_annotation"),
+    "strannot_esc": (["def f(x: \"\\n\\n\\n\\nint.zz_mark\"): return \"{P}\""], "invalid_annotation"),
+    "strannot_wide": (["def f(x: \"dict[str, dict[str, dict[str, int.zz_mark]]]\"): return \"{P}\""], "invalid_annotation"),
+    "strannot_ml": (["def f(x: \"\"\"(", "  int.zz_mark", ")\"\"\"): return \"{P}\""], "invalid_annotation"),
+}
+
+
+def render_layout(lay: dict) -> str:
+    body, _ = SITES[lay["site"]]
+    pad = PADS[lay["pad"]]
+    lines = [FILLERS[lay["filler"]].format(i=i) for i in range(lay["before"])]
+    lines += [ln.replace("{P}", pad).replace("{{", "{").replace("}}", "}") for ln in body]
+    lines += [FILLERS[lay["filler"]].format(i=100 + i) for i in range(lay["after"])]
+    nl = NEWLINES[lay["nl"]]
+    return nl.join(lines) + (nl if lay["trail"] else "")
+
+
+def marker_node(src: str, lay: dict) -> dict:
+    """Position of the diagnosed node as CPython's parser reports it (the oracle for node positions)."""
+    tree = ast.parse(src)
+    site = lay["site"]
+    lines = ref_lines(src)
+    if site.startswith("strannot"):
+        for n in ast.walk(tree):
+            if isinstance(n, ast.Constant) and isinstance(n.value, str) and MARK in n.value:
+                sub = ast.parse(n.value, mode="eval")
+                for m in ast.walk(sub):
+                    if isinstance(m, ast.Attribute) and m.attr == MARK:
+                        return {"haspos": True, "lineno": m.lineno, "col": m.col_offset, "end_lineno": m.end_lineno,
+                                "end_col": m.end_col_offset, "fwd": True}
+        raise core.MachineryError(f"no marker in string annotation of layout {lay}")
+    for n in ast.walk(tree):
+        hit = (isinstance(n, ast.Call) and isinstance(n.func, ast.Name) and n.func.id == "int") if site == "mlcall" else (
+            isinstance(n, ast.Name) and n.id == MARK)
+        if hit:
+            if site != "mlcall":  # the line model must agree with CPython's positions (byte offsets into the physical line)
+                seg = lines[n.lineno - 1].encode("utf-8")[n.col_offset:n.end_col_offset].decode("utf-8", "replace")
+                if seg != MARK:
+                    raise core.MachineryError(f"oracle: line model disagrees with CPython's node position: {seg!r} for {lay}")
+            return {"haspos": True, "lineno": n.lineno, "col": n.col_offset, "end_lineno": n.end_lineno,
+                    "end_col": n.end_col_offset, "fwd": False}
+    raise core.MachineryError(f"no marker node in layout {lay}")
+
+
+def observe_layout(arg: tuple[int, dict]) -> list[dict]:
+    tid, p = arg
+    lay = p["layout"]
+    src = render_layout(lay)
+    node = marker_node(src, lay)
+    expect = SITES[lay["site"]][1]
+
+    def marker(code: str, desc: str) -> bool:
+        return code == expect and (expect == "incompatible_call" or MARK in desc)
+
+    return observe_source(tid * 2, src, {"slice": "layout", "layout": lay, "node": node}, lambda lineno: 0, marker)
+
+
+# --------------------------------------------------------------------------- V / R: the public value API
+def _tvmap():
+    from pyanalyze import value as V
+
+    from .. import universe as U
+
+    return {U.T: V.TypedValue(int), U.TB: V.KnownValue(U.ODD["unhashable"]), U.TC: V.AnyValue(V.AnySource.explicit),
+            U.TVT: V.TypedValue(int)}
+
+
+def _unary_ops(a, ck, tvmap):
+    from pyanalyze import value as V
+
+    yield "str", lambda: str(a)
+    yield "repr", lambda: repr(a)
+    yield "hash", lambda: hash(a)
+    yield "eq_self", lambda: a == a
+    yield "simplify", lambda: a.simplify()
+    yield "get_type_value", lambda: a.get_type_value()
+    yield "get_type", lambda: a.get_type()
+    yield "is_type", lambda: a.is_type(int)
+    yield "substitute_empty", lambda: a.substitute_typevars({})
+    yield "substitute_map", lambda: a.substitute_typevars(tvmap)
+    yield "walk_values", lambda: list(a.walk_values())
+    yield "flatten_values", lambda: list(V.flatten_values(a, unwrap_annotated=True))
+    yield "unannotate", lambda: V.unannotate(a)
+    yield "extract_typevars", lambda: list(V.extract_typevars(a))
+    yield "concrete_values_from_iterable", lambda: V.concrete_values_from_iterable(a, ck)
+    yield "is_iterable", lambda: V.is_iterable(a, ck)
+    yield "unpack_values", lambda: V.unpack_values(a, ck, 2)
+    yield "check_hashability", lambda: V.check_hashability(a, ck)
+    yield "replace_known_sequence_value", lambda: V.replace_known_sequence_value(a)
+    yield "kv_pairs_from_mapping", lambda: V.kv_pairs_from_mapping(a, ck)
+    yield "unite_and_simplify", lambda: V.unite_and_simplify(a, a, limit=2)
+    yield "annotate_value", lambda: V.annotate_value(a, [V.KnownValue(1)])
+    yield "stringify_object", lambda: V.stringify_object(a)
+    yield "signature_from_value", lambda: ck.signature_from_value(a)
+    yield "display_error", lambda: str(V.CanAssignError("x", [V.CanAssignError(str(a))]))
+
+
+def _binary_ops(a, b, ck):
+    from pyanalyze import value as V
+
+    yield "can_assign", lambda: a.can_assign(b, ck)
+
+    def excl():
+        with ck.set_exclude_any():
+            return a.can_assign(b, ck)
+
+    yield "can_assign_exclude_any", excl
+    yield "is_assignable", lambda: a.is_assignable(b, ck)
+    yield "can_overlap_eq", lambda: a.can_overlap(b, ck, V.OverlapMode.EQ)
+    yield "can_overlap_is", lambda: a.can_overlap(b, ck, V.OverlapMode.IS)
+    yield "can_overlap_match", lambda: a.can_overlap(b, ck, V.OverlapMode.MATCH)
+    yield "unite_values", lambda: V.unite_values(a, b)
+    yield "eq", lambda: a == b
+    yield "is_overlapping", lambda: V.is_overlapping(a, b, ck)
+    yield "get_tv_map", lambda: V.get_tv_map(a, b, ck)
+    yield "can_assign_and_used_any", lambda: V.can_assign_and_used_any(a, b, ck)
+
+
+def _run_ops(ops) -> tuple[list[dict], int]:
+    fails, n = [], 0
+    for name, thunk in ops:
+        n += 1
+        try:
+            thunk()
+        except core.MachineryError:
+            raise
+        except Exception as exc:  # noqa: BLE001
+            fails.append({"op": name, "exc": f"{type(exc).__name__}: {exc}"[:200]})
+    return fails, n
 
 
 def observe_values(arg: tuple[int, dict]) -> dict:
@@ -178,92 +370,270 @@ def observe_values(arg: tuple[int, dict]) -> dict:
 
     tid, p = arg
     ck = pyz.get_checker()
+    a, b = ac.val(p["a"]), ac.val(p["b"])
+    tvmap = _tvmap()
+    with warnings.catch_warnings():
+        warnings.simplefilter("ignore")
+        fails, n = _run_ops(_binary_ops(a, b, ck))
+        try:
+            u = unite_values(a, b)
+        except Exception:  # noqa: BLE001  (already recorded by the unite_values op)
+            u = None
+        if u is not None:  # derived values must be total too
+            f2, n2 = _run_ops(_unary_ops(u, ck, tvmap))
+            fails += [{"op": "united." + f["op"], "exc": f["exc"]} for f in f2]
+            n += n2
+        if p["a"] == p["b"]:
+            f3, n3 = _run_ops(_unary_ops(a, ck, tvmap))
+            fails += f3
+            n += n3
+    return {"tid": tid, "event": "ValueOp", "a": p["a"], "b": p["b"], "fails": fails, "nops": n}
+
+
+def observe_rt(arg: tuple[int, dict]) -> dict:
+    from pyanalyze import runtime
+
+    tid, p = arg
+    o = codec.obj_to_py(p["o"])
     try:
-        a, b = ac.val(p["a"]), ac.val(p["b"])
-        a.can_assign(b, ck)
-        b.can_assign(a, ck)
-        u = unite_values(a, b)
-        u.substitute_typevars({})
-        str(u), hash(u), u == a, u.simplify()
-        a.can_overlap  # attribute exists
-        return {"tid": tid, "event": "ValueOp", "ok": True}
+        anno = codec.term_to_annotation(p["a"])
+        typ = eval(anno, ac._namespace())
     except core.MachineryError:
-        raise
-    except Exception as exc:  # noqa: BLE001
-        return {"tid": tid, "event": "ValueOp", "ok": False, "exc": f"{type(exc).__name__}: {exc}"[:300], "a": p["a"], "b": p["b"]}
+        return {"tid": tid, "event": "RtOp", "o": p["o"], "a": p["a"], "fails": [], "nops": 0}
+    with warnings.catch_warnings():
+        warnings.simplefilter("ignore")
+        fails, n = _run_ops([("runtime.is_assignable", lambda: runtime.is_assignable(o, typ)),
+                             ("runtime.get_assignability_error", lambda: runtime.get_assignability_error(o, typ)),
+                             ("runtime.is_compatible", lambda: runtime.is_compatible(o, typ))])
+    return {"tid": tid, "event": "RtOp", "o": p["o"], "a": p["a"], "fails": fails, "nops": n}
 
 
-def judge(check: core.Check, progs: list[dict], pairs: list[dict], label: str) -> None:
+# --------------------------------------------------------------------------- adjudication
+def _header() -> dict:
     from pyanalyze.error_code import ErrorCode
 
-    header = {"tid": -1, "event": "Codes", "codes": sorted(e.name for e in ErrorCode)}
-    per_prog = core.pmap(observe_prog, list(enumerate(progs)), chunk=20)
-    base = 2 * len(progs)
-    vals = core.pmap(observe_values, [(base + i, p) for i, p in enumerate(pairs)], chunk=2000)
+    return {"tid": -1, "event": "Codes", "codes": sorted(e.name for e in ErrorCode)}
+
+
+def _strip(e: dict) -> dict:
+    drop = ("msg", "note", "nops", "layout", "config", "same_as_other_config") if e.get("code") == "internal_error" or e["event"] != "Diag" else (
+        "msg", "note", "nops", "exc", "head")
+    return {k: v for k, v in e.items() if k not in drop}
+
+
+def adjudicate(groups: list[list[dict]], parallel: int = 8) -> tuple[dict[Any, list[str]], dict[str, int]]:
+    """groups: event lists that must stay together (one module = Begin .. End of both configurations)."""
+    header = _header()
     batches: list[list[dict]] = [[header]]
-    for evs in per_prog + [[v] for v in vals]:
-        if len(batches[-1]) + len(evs) > 30000:
+    for evs in groups:
+        if len(batches[-1]) + len(evs) > 6000:
             batches.append([header])
-        batches[-1].extend(evs)
+        batches[-1].extend(_strip(e) for e in evs)
+    verdicts: dict[Any, list[str]] = {}
+    stats = {"observations": 0, "states": 0, "transitions": 0, "batches": 0}
+
+    def one(b):
+        return core.adjudicate("TotalityTrace", "TotalityTrace.cfg", b, batch=10**9, timeout=1800)
+
+    with ThreadPoolExecutor(parallel) as ex:
+        for v, s in ex.map(one, batches):
+            for k, vs in v.items():
+                verdicts.setdefault(k, []).extend(vs)
+            for k in stats:
+                stats[k] += s[k]
+    return verdicts, stats
+
+
+def judge(check: core.Check, progs: list[dict], layouts: list[dict], pairs: list[dict], rts: list[dict], label: str) -> None:
+    import time as _t
+
+    t0 = _t.time()
+    per_prog = core.pmap(observe_prog, list(enumerate(progs)), chunk=20)
+    base = len(progs)
+    per_lay = core.pmap(observe_layout, [(base + i, p) for i, p in enumerate(layouts)], chunk=40)
+    base = 2 * (len(progs) + len(layouts))
+    vals = core.pmap(observe_values, [(base + i, p) for i, p in enumerate(pairs)], chunk=500)
+    base += len(pairs)
+    rtobs = core.pmap(observe_rt, [(base + i, p) for i, p in enumerate(rts)], chunk=500)
+    groups = per_prog + per_lay + [[v] for v in vals] + [[v] for v in rtobs]
+    t1 = _t.time()
+    verdicts, stats = adjudicate(groups)
+    check.add_trace_stats(stats)
+    check.cov.setdefault("phase_wall_s", []).append({"source": label, "observe": round(t1 - t0, 1), "adjudicate": round(_t.time() - t1, 1)})
     by_tid: dict[int, list[dict]] = {}
-    for evs in per_prog:
+    for evs in groups:
         for e in evs:
             by_tid.setdefault(e["tid"], []).append(e)
-    for v in vals:
-        by_tid[v["tid"]] = [v]
-    for b in batches:
-        verdicts, stats = core.adjudicate("TotalityTrace", "TotalityTrace.cfg", b, batch=10**9)
-        check.add_trace_stats(stats)
-        for tid, vs in verdicts.items():
-            evs = by_tid.get(tid, [])
-            first = evs[0] if evs else {}
-            key_obj = first.get("prog") or {k: first.get(k) for k in ("a", "b")}
-            for v in set(vs):
-                if v.startswith("viol:"):
-                    bad = [e for e in evs if e["event"] in ("Raised", "Diag", "ValueOp")][-3:]
-                    check.violation(core.canon({"case": key_obj, "config": first.get("config")}), v[5:],
-                                    {"case": {"prog": first.get("prog"), "a": first.get("a"), "b": first.get("b")},
-                                     "config": first.get("config"), "events": bad,
-                                     "src": render(first["prog"]) if first.get("prog") else None, "source": label})
-    check.evals(2 * len(progs) + len(pairs))
+    for tid, vs in sorted(verdicts.items()):
+        evs = by_tid.get(tid, [])
+        first = evs[0] if evs else {}
+        case = {k: first[k] for k in ("prog", "layout", "a", "b", "o") if first.get(k) not in (None, [], {})}
+        src = render(first["prog"]) if first.get("slice") == "frag" else render_layout(first["layout"]) if first.get("slice") == "layout" else None
+        bad = [e for e in evs if e["event"] in ("Raised", "Diag", "ValueOp", "RtOp")]
+        for v in sorted(set(vs)):
+            payload = {"case": case, "config": first.get("config"), "verdict": v, "source": label, "src": src,
+                       "events": [{k: x for k, x in e.items() if k != "lines"} for e in bad][-4:]}
+            if v.startswith("viol:"):
+                check.violation(core.canon({"case": case, "config": first.get("config")}), v[5:], payload)
+            elif v.startswith("dev:"):
+                check.violation(v[4:], v[4:], payload)
+            elif v.startswith("drift:"):
+                check.drift(payload)
+            else:
+                raise core.MachineryError(f"unexpected verdict {v} for tid {tid}")
+    check.evals(2 * (len(progs) + len(layouts)) + sum(v["nops"] for v in vals) + sum(v["nops"] for v in rtobs))
     for p in progs:
         check.nontrivial(core.canon(p["prog"]))
-    for evs in per_prog[:: max(1, len(per_prog) // 2)][:2]:
-        check.sample({"source": label, "events": evs[:6]})
+    for p in layouts:
+        check.nontrivial(core.canon(p["layout"]))
+    for p in pairs:
+        check.nontrivial(core.canon([p["a"], p["b"]]))
+    ndiag = sum(1 if e["event"] == "Diag" else e.get("same_as_other_config", 0) for evs in per_prog + per_lay for e in evs
+                if e["event"] in ("Diag", "End"))
+    check.cov["diagnostics_judged"] = check.cov.get("diagnostics_judged", 0) + ndiag
+    check.cov["value_operations"] = check.cov.get("value_operations", 0) + sum(v["nops"] for v in vals) + sum(v["nops"] for v in rtobs)
+    for evs in (per_prog[:: max(1, len(per_prog) // 2)][:2] + per_lay[:: max(1, len(per_lay) // 2)][:2]):
+        check.sample({"source": label, "events": [{k: x for k, x in e.items() if k != "lines"} for e in evs[:4]]})
+    for v in vals[:1] + rtobs[:1]:
+        check.sample({"source": label, "events": [v]})
 
 
+# --------------------------------------------------------------------------- sensitivity of the trace oracle
+def selftest_trace_oracle(check: core.Check) -> None:
+    """Corrupted observations: every clause of the trace oracle must reject what it is there to reject."""
+    src = "def f():\n    return zz_mark\n\n\n\n\n\n\nx = 1\n"
+    evs = observe_source(0, src, {"slice": "frag", "prog": []}, lambda n: 0, _no_marker)
+    begin = evs[0]
+    good = next(e for e in evs if e["event"] == "Diag" and e["code"] == "undefined_name")
+
+    def case(tid: int, diag: Optional[dict], tail: Optional[dict] = None) -> list[dict]:
+        out = [{**begin, "tid": tid}]
+        if diag is not None:
+            out.append({**good, **diag, "tid": tid})
+        out.append(tail if tail is not None else {"tid": tid, "event": "End", "skipped": False})
+        return out
+
+    I1 = {"k": "known", "o": {"c": "int", "v": "1", "items": []}}
+    expect = {
+        1: ("ok", case(1, {})),
+        2: ("viol:IllFormedDiagnostic", case(2, {"col": 40, "origin": "none"})),            # column beyond the line
+        3: ("viol:IllFormedDiagnostic", case(3, {"lineno": 10, "origin": "none"})),         # line beyond the file
+        4: ("viol:IllFormedDiagnostic", case(4, {"msglen": 0})),
+        5: ("viol:IllFormedDiagnostic", case(5, {"code": "no_such_code"})),
+        6: ("viol:IllFormedDiagnostic", case(6, {"haspos": False, "lineno": 0, "col": 0, "ctx": [], "caret": -1})),
+        7: ("viol:InternalError", case(7, {"code": "internal_error", "exc": "Internal error: KeyError('x')"})),
+        8: ("viol:ContextNotFromFile", case(8, {"ctx": [{"n": e["n"], "t": 9999 if e["n"] == 1 else e["t"]} for e in good["ctx"]]})),
+        9: ("viol:ContextNotFromFile", case(9, {"ctx": [e for e in good["ctx"] if e["n"] != good["lineno"]]})),
+        10: ("drift:context", case(10, {"ctx": good["ctx"][:-1]})),
+        11: ("drift:context", case(11, {"caret": good["caret"] + 1})),
+        12: ("viol:CheckRaised", case(12, None, {"tid": 12, "event": "Raised", "exc": "X"})),
+        13: ("viol:ValueOperationRaised", [{"tid": 13, "event": "ValueOp", "a": I1, "b": I1, "fails": [{"op": "hash", "exc": "RuntimeError: __hash__ raises"}]}]),
+        14: ("viol:RuntimeApiRaised", [{"tid": 14, "event": "RtOp", "o": I1["o"], "a": I1, "fails": [{"op": "runtime.is_assignable", "exc": "TypeError: x"}]}]),
+        15: ("viol:InternalError", case(15, {"code": "internal_error", "exc": "", "head": "Match value is not a literal"})),  # outside its fragment kind
+    }
+    verdicts, stats = adjudicate([evs for _, evs in expect.values()], parallel=1)
+    check.add_trace_stats(stats)
+    for tid, (want, _) in expect.items():
+        got = sorted(set(verdicts.get(tid, []))) or ["ok"]
+        if got != [want]:
+            raise core.MachineryError(f"trace-oracle self-test {tid}: expected {want}, TLC said {got}")
+    check.cov["trace_oracle_selftests"] = len(expect)
+
+
+# --------------------------------------------------------------------------- run / replay
 def run(check: core.Check) -> None:
     quick = check.tier == "quick"
     rnd = random.Random(check.seed)
     check.assumptions += [
-        "the grammar is the modelled one (42 fragment kinds x 13 operand kinds, sequences of <=2 exhaustively in thorough, "
-        "<=4 by simulation), not all of Python; totality is observed, not derived (exploration level)",
+        f"the grammar is the modelled one ({len(F.KINDS)} fragment kinds x 13 operand kinds x scope nestings of depth <= 3 "
+        "(def / async def / class); every single fragment exhaustively, sequences of <= 4 fragments by simulation), not all of "
+        "Python; totality is observed, not derived (exploration level)",
         "two enabled-code configurations: defaults and every code enabled; modules that fail to import are outside the domain",
+        "position model: physical lines as CPython counts them (LF / CRLF / CR), node positions as CPython's parser reports "
+        "them; layouts: 16 sites x 12 paddings x lines around x terminators (exhaustive core + simulation)",
+        "well-formed values: objects wrapped by KnownValue follow the data model where the checker has to rely on it "
+        "(__repr__ returns a str, __getattr__ raises AttributeError only); __eq__, __bool__, __hash__ may raise",
+        "constructs on which the unchanged tree is known to deviate (value pattern that is not a literal, self-referential "
+        "list[\"Alias\"] string alias) are confined to fragment kinds of their own so that the class predicates stay exact",
     ]
-    em = core.require_ok(core.run_tlc("TotalityEmit", "Totality.emit1.cfg", coverage=True, timeout=1800), "Totality emit")
+    # (1) the position model, exhaustively, with its sensitivity configurations
+    with ThreadPoolExecutor(6) as ex:
+        futs = {name: ex.submit(core.run_tlc, "TotalityEmit", f"Totality.{name}.cfg", timeout=1800,
+                                workers=4 if name in ("pos", "pos5") else 1, coverage=(name in ("pos", "pos5")))
+                for name in (["pos"] if quick else ["pos5"]) + ["posstrict", "posnobyte", "posnosplit", "posnofwd", "posnopos"]}
+        res = {k: f.result() for k, f in futs.items()}
+    main = "pos" if quick else "pos5"
+    core.require_ok(res[main], "position model")
+    core.require_coverage(res[main], ["PosNext"], "Totality position model")
+    check.add_tlc(f"position-model:{main}", res[main])
+    for name in ("posstrict", "posnobyte", "posnosplit", "posnofwd", "posnopos"):
+        want = "PosStrict" if name == "posstrict" else "PosProperty"
+        if res[name].violated != want:
+            raise core.MachineryError(f"sensitivity: Totality.{name}.cfg should violate {want}, TLC said {res[name].violated} / {res[name].error}")
+        check.add_tlc(f"sensitivity:{name} (violated as required)", res[name])
+    # (2) the trace oracle rejects corrupted observations
+    selftest_trace_oracle(check)
+    # (3) generated inputs (independent TLC runs, side by side)
+    with ThreadPoolExecutor(7) as ex:
+        f_em = ex.submit(core.run_tlc, "TotalityEmit", "Totality.emit1.cfg" if quick else "Totality.emit1t.cfg", coverage=True, timeout=1800, workers=4)
+        f_sim = ex.submit(core.simulate_cases, "TotalityEmit", "Totality.sim.cfg", 700 if quick else 8000, depth=14,
+                          seed=check.seed + 4, check=check, first_num=40)
+        f_lay = ex.submit(core.run_tlc, "TotalityEmit", "Totality.layq.cfg" if quick else "Totality.layfull.cfg", timeout=1800, workers=4)
+        f_lsim = ex.submit(core.simulate_cases, "TotalityEmit", "Totality.laysim.cfg", 500 if quick else 4000, depth=6,
+                           seed=check.seed + 5, check=check, first_num=60 if quick else 600)
+        f_val = ex.submit(core.run_tlc, "TotalityEmit", "Totality.vals.cfg", timeout=1800, workers=4)
+        f_rt = ex.submit(core.run_tlc, "TotalityEmit", "Totality.rt.cfg", timeout=1800, workers=2)
+        f_pairs = ex.submit(core.run_tlc, "AssignEmit", "Assign.emit1.cfg", timeout=1800, workers=4)
+        em = core.require_ok(f_em.result(), "Totality emit")
+        sim = f_sim.result()
+        lem = core.require_ok(f_lay.result(), "layouts")
+        lsim = f_lsim.result()
+        vem = core.require_ok(f_val.result(), "wide value pairs")
+        rem = core.require_ok(f_rt.result(), "runtime pairs")
+        pem = core.require_ok(f_pairs.result(), "value pairs emit")
     core.require_coverage(em, ["Next"], "Totality")
     check.add_tlc("emit1", em)
     progs = core.emitted_json(em)
-    sim = core.simulate_cases("TotalityEmit", "Totality.sim.cfg", 700 if quick else 12000, depth=6, seed=check.seed + 4,
-                              check=check, first_num=1)
-    progs = progs + [p for p in sim if len(p["prog"]) > 1]
-    pem = core.require_ok(core.run_tlc("AssignEmit", "Assign.emit1.cfg", timeout=1800), "value pairs emit")
+    progs = progs + [p for p in sim if len(p["prog"]) > 1 or len(p["prog"][0]["w"]) > 1]
+    check.add_tlc("layouts", lem)
+    layouts = core.emitted_json(lem)
+    seen = {core.canon(x) for x in layouts}
+    layouts += [x for x in lsim if core.canon(x) not in seen]
+    check.add_tlc("wide-value-pairs", vem)
+    wide = core.emitted_json(vem)
+    check.add_tlc("runtime-pairs", rem)
+    rts = core.emitted_json(rem)
     check.add_tlc("value-pairs", pem)
-    pairs = core.emitted_json(pem)
-    allpairs = pairs
-    pairs = rnd.sample(allpairs, min(len(allpairs), 8000 if quick else 10**9))
+    allpairs = core.emitted_json(pem)
+    pairs = rnd.sample(allpairs, min(len(allpairs), 4000 if quick else 10**9))
     # always include the pairs with a big literal union on either side (set-based fast paths of MultiValuedValue)
     big = [p for p in allpairs if any(t["k"] == "union" and len(t["ms"]) >= 10 for t in (p["a"], p["b"]))]
     pairs = pairs + [p for p in big if p not in pairs]
+    # always replayed: the callable-compatibility family (Values.tla CallFamily) and every pair with a big union
+    fam = [p for p in wide if p["fam"] or p["big"]]
+    check.cov["callable_family_pairs"] = len(fam)
+    if quick:
+        diag = [p for p in wide if p["a"] == p["b"] and not (p["fam"] or p["big"])]
+        rest = [p for p in wide if p["a"] != p["b"] and not (p["fam"] or p["big"])]
+        wide = fam + diag + rnd.sample(rest, min(len(rest), 4000))
     check.cov["exhaustive"] = False
-    check.cov["rule"] = ("modules = sequences of fragments generated by TLC (every single fragment exhaustively, longer sequences by "
-                         "simulation) x 2 configurations; value pairs from Assign.tla's generator; non-trivial = distinct modules")
-    judge(check, progs, pairs, "tlc-generated")
+    check.cov["rule"] = (
+        "modules = sequences of fragments generated by TLC (every single fragment kind x operand in a plain and in an async "
+        "function exhaustively, longer sequences and deeper scope nestings by simulation) x 2 configurations; layouts = site x "
+        "padding x lines before in {0,1,4} x after in {0,4} x trailing newline exhaustively, fillers / terminators by simulation "
+        "(thorough: before in {0,1,3,4} x after in {0,3,4} x 3 fillers x LF/CRLF exhaustively + 4000 simulated over everything); every diagnostic judged on the position model (WellFormed + context); value pairs = "
+        "WideTerms x WideTerms of TotalityValues.tla (quick: the callable family CallFamily x CallFamily, the diagonal and 4000 sampled pairs) + Assign.tla's pairs, 12 binary operations "
+        "per pair + 25 unary ones on the union; runtime API on RtObjects x RtTypes; non-trivial = distinct modules / layouts / pairs")
+    judge(check, progs, layouts, pairs + wide, rts, "tlc-generated")
 
 
 def replay(check: core.Check, witness: dict) -> None:
     c = witness["case"]
     if c.get("prog"):
-        judge(check, [{"prog": c["prog"]}], [], "replay")
+        judge(check, [{"prog": c["prog"]}], [], [], [], "replay")
+    elif c.get("layout"):
+        judge(check, [], [{"layout": c["layout"]}], [], [], "replay")
+    elif c.get("o"):
+        judge(check, [], [], [], [{"o": c["o"], "a": c["a"]}], "replay")
     else:
-        judge(check, [], [{"a": c["a"], "b": c["b"]}], "replay")
+        judge(check, [], [], [{"a": c["a"], "b": c["b"]}], [], "replay")
